@@ -224,7 +224,7 @@ qb_log_blackbox_print_from_file(const char *bb_filename)
 {
 	qb_ringbuffer_t *instance;
 	ssize_t bytes_read;
-	int max_size = 2 * QB_LOG_MAX_LEN;
+	int max_size = 2 * QB_LOG_ABSOLUTE_MAX_LEN;
 	size_t min_entry;
 	char *chunk;
 	int fd;
@@ -266,6 +266,10 @@ qb_log_blackbox_print_from_file(const char *bb_filename)
 	if (instance == NULL) {
 		return -EIO;
 	}
+	/* a chunk can not be longer than the ring it lives in */
+	if ((size_t)max_size > instance->shared_hdr->word_size * sizeof(uint32_t)) {
+		max_size = instance->shared_hdr->word_size * sizeof(uint32_t);
+	}
 	chunk = malloc(max_size);
 	if (!chunk) {
 		goto cleanup;
@@ -283,7 +287,7 @@ qb_log_blackbox_print_from_file(const char *bb_filename)
 		time_t time_sec;
 		uint32_t msg_len;
 		struct tm *tm;
-		char message[QB_LOG_MAX_LEN];
+		char message[QB_LOG_ABSOLUTE_MAX_LEN];
 
 		bytes_read = qb_rb_chunk_read(instance, chunk, max_size, 0);
 
@@ -361,7 +365,7 @@ qb_log_blackbox_print_from_file(const char *bb_filename)
 		}
 		/* message length */
 		memcpy(&msg_len, ptr, sizeof(uint32_t));
-		if (msg_len > QB_LOG_MAX_LEN || msg_len <= 0 ||
+		if (msg_len > QB_LOG_ABSOLUTE_MAX_LEN || msg_len <= 0 ||
 		    msg_len > bytes_read - (ptr + sizeof(uint32_t) - chunk)) {
 #ifndef S_SPLINT_S
 			printf("ERROR Corrupt file: msg_len out of bounds %" PRIu32 "\n", msg_len);
